@@ -5,6 +5,7 @@ import Mathlib.Tactic.Ring
 import Urandom.Model.ZigData
 import Urandom.Lemmas.ExpEnclosure
 import Urandom.Lemmas.ZigguratLaw
+import Urandom.Lemmas.TailLaw
 /-
 C16 - Normal and exponential samplers really have the normal / exponential law.  **PARTIAL.**
 
@@ -27,8 +28,11 @@ What is decided here:
      accuracy - this is the correctness argument of the sampler.
 What is NOT decided: the effect of floating point and of the 2^-28 / 2^-42 inexactness of the
 tables' areas on the law (a goodness-of-fit search on the implementation covers it, not a proof),
-and that the base-strip sampler (rectangle + Marsaglia / exponential tail) draws a uniform point of
-the base layer (assumed by `ziggurat_law` through its hypothesis on `R 0`).
+and the assembly of the base layer from its rectangle and its tail (`ziggurat_law` assumes a uniform point
+of `R 0`; (5) proves that the two TAIL samplers have the conditional laws that this needs).
+ (5) **the tail samplers** (idealised; `Lemmas/TailLaw`): `R - ln U` is a unit exponential conditioned on
+     exceeding `R`; Marsaglia's loop (`x = ln(U1)/R`, `y = ln(U2)` until `-2 y >= x^2`, result `R - x`)
+     has the standard normal law conditioned on `[R, ∞)`.
  (2) **every tabulated ordinate equals the density at the tabulated abscissa** (`Real.exp`, relative
      `10^-13`, all 2 x 257 entries of the tables as they are in the source now): integer-only
      enclosures of `Real.exp` (`Lemmas/ExpEnclosure`: degree-19 Taylor fraction, Mathlib's remainder
@@ -228,5 +232,29 @@ theorem ziggurat_method_law {n : ℕ} (f : ℝ → ℝ) (hf : Measurable f)
         (ProbabilityTheory.cond ((n : ENNReal)⁻¹ • ∑ i, ProbabilityTheory.cond (MeasureTheory.volume : MeasureTheory.Measure (ℝ × ℝ)) (R i)) (ZigLaw.under f)) =
       (∫⁻ x, ENNReal.ofReal (f x))⁻¹ • (MeasureTheory.volume : MeasureTheory.Measure ℝ).withDensity (fun x => ENNReal.ofReal (f x)) :=
   ZigLaw.ziggurat_law f hf R hR hd v hv hvt hn hcover
+
+/-! ### (5) the tail samplers -/
+
+/-- **`ZIG_EXP_R - float01().ln()`** (the `zero_case` of `exp.rs`), idealised: for a uniform `U` on `(0,1)` the
+result is a unit exponential variable conditioned on exceeding `R` -/
+theorem exp_tail_sampler_law {R : ℝ} (hR : 0 ≤ R) :
+    MeasureTheory.Measure.map (fun u => R - Real.log u) TailLaw.unif =
+      ProbabilityTheory.cond (ProbabilityTheory.expMeasure 1) (Set.Ioi R) :=
+  TailLaw.exp_tail_sampler_law hR
+
+/-- **the loop of `zero_case` in `normal.rs`** (Marsaglia's tail method), idealised: with independent uniform
+`U1, U2` on `(0,1)`, `x = ln(U1)/R`, `y = ln(U2)`, repeated until `-2 y >= x^2` (conditioning), the result `R - x`
+has the standard normal law conditioned on `[R, ∞)` -/
+theorem normal_tail_sampler_law {R : ℝ} (hR : 0 < R) :
+    MeasureTheory.Measure.map (fun u : ℝ × ℝ => R - Real.log u.1 / R)
+        (ProbabilityTheory.cond (TailLaw.unif.prod TailLaw.unif) {u | (Real.log u.1 / R) ^ 2 ≤ -2 * Real.log u.2}) =
+      ProbabilityTheory.cond (ProbabilityTheory.gaussianReal 0 1) (Set.Ici R) :=
+  TailLaw.normal_tail_sampler_is_conditioned_normal hR
+
+/-- the draws of the two theorems above are uniform on `(0,1)`, and `-ln` of one is a unit exponential -/
+theorem neg_log_uniform_is_exponential :
+    MeasureTheory.Measure.map (fun u => -Real.log u) ((MeasureTheory.volume : MeasureTheory.Measure ℝ).restrict (Set.Ioo 0 1)) =
+      ProbabilityTheory.expMeasure 1 :=
+  TailLaw.neg_log_uniform
 
 end Urandom.C16
